@@ -29,6 +29,11 @@ ASSUMPTIONS = ["healpy.query_disc/query_polygon(inclusive=True) return a "
                "healpy angle conventions (colatitude, longitude in radians)"]
 
 MUTANTS = [
+    ("depth clamp written with max instead of min", "AegeanTools/regions.py",
+     "        if depth is None or depth > self.maxdepth:\n"
+     "            depth = self.maxdepth\n\n        try:",
+     "        depth = self.maxdepth if depth is None else max(depth, self.maxdepth)\n\n        try:",
+     "C09-R9"),
     ("huge discs queried and stored at a coarser level",
      "AegeanTools/regions.py",
      "            pix = hp.query_disc(2**depth, vec, r, inclusive=True, nest=True)\n"
@@ -151,6 +156,7 @@ def run(ctx):
     # ---------------------------------------------------------------- R6
     membership_rule(ctx, prog, sw, g, rets, rname, "C09-R6")
     r8_unit_agnostic(ctx, prog, ci, sw)
+    r9_depth_clamp(ctx, prog, ci)
     # ---------------------------------------------------------------- R4
     ctx.rule("C09-R4", "radec2sky: scalar fallback on TypeError; the result "
              "is a 2-column array for any number of positions")
@@ -413,6 +419,50 @@ def membership_for(ctx, prog, ci, rule):
         raise AnalysisError(rule + ": sky_within return sites")
     membership_rule(ctx, prog, sw, g, rets, norm(g.stmt[rets[0]].value),
                     rule)
+
+
+def r9_depth_clamp(ctx, prog, ci, rule="C09-R9"):
+    """for ANY requested depth the pixels land on a level the region looks
+    at: the statements that (re)bind `depth` in add_circles / add_poly are
+    interpreted over depth = None, below, at and above maxdepth"""
+    from .. import concrete
+    ctx.rule(rule, "any depth: after the clamp at the top of add_circles / "
+             "add_poly the storage depth is an integer in 1..maxdepth for "
+             "depth = None, < maxdepth, == maxdepth and > maxdepth (levels "
+             "above maxdepth are never looked at by _demote_all, sky_within "
+             "or get_area: the shape would be stored and ignored)")
+    n = 0
+    for m in ("add_circles", "add_poly"):
+        fi = ci.methods.get(m)
+        if fi is None or "depth" not in fi.params:
+            continue
+        # the clamp: top-level statements binding `depth`, up to the first
+        # statement that uses it for something else
+        clamp = []
+        for st in fi.node.body:
+            binds = any(isinstance(x, ast.Name) and x.id == "depth" and
+                        isinstance(x.ctx, ast.Store) for x in ast.walk(st))
+            if binds and isinstance(st, (ast.Assign, ast.If, ast.AugAssign)):
+                clamp.append(st)
+        MD = 8
+        bad = []
+        for d in (None, 1, MD - 1, MD, MD + 1, MD + 4):
+            env = {"depth": d, "self.maxdepth": MD}
+            try:
+                concrete.run(clamp, env)
+            except concrete.Unknown as e:
+                raise AnalysisError("%s: depth clamp of %s: %s" % (rule, m, e))
+            n += 1
+            r = env.get("depth")
+            if not (isinstance(r, int) and 1 <= r <= MD):
+                bad.append((d, r))
+        ctx.check(rule, fi, "depth clamp of %s (%d statement(s))" %
+                  (m, len(clamp)), not bad,
+                  "with maxdepth=%d a requested depth of %s is stored at "
+                  "level %s, which no query of the region ever reads" %
+                  ((MD,) + (bad[0] if bad else ("", ""))),
+                  node=clamp[0] if clamp else fi.node)
+    ctx.floor(rule, n, 12, "depth samples interpreted")
 
 
 def r8_unit_agnostic(ctx, prog, ci, sw):
